@@ -4,15 +4,15 @@ CONSTANTS
   MaxOver1 = 2
   Cats2 = {12}
   MaxOver2 = 1
-  Time = {1}
+  Time = {1, 2}
   Locales = {"C"}
   EnvSizes = {0}
   PwdValues = {"real", "link"}
   CwdVia = {"real", "link"}
   OcNames = {"rel"}
-  CwdSource = "PWD"
+  CwdSource = "getcwd"
   EpochEnvs = {"unset", "0", "normal"}
-  ZeroMeansUnset = FALSE
+  ZeroMeansUnset = TRUE
   PrevFiles = {"none", "longer"}
   Truncates = TRUE
   TieBreak = "signature"
